@@ -43,7 +43,10 @@ RANGE_BATTERY = [
     ("range-nested", "function f()\n\tlocal a   = 1\n\tlocal b   = 2\nend\nlocal c   = 3\n", ["--range-start", "14", "--range-end", "28"],
      ["local b   = 2\n", "local c   = 3\n"], ["\tlocal a = 1\n"]),
     ("range-both-semis", "local x   =  1;\nlocal y   =  2;\nlocal z   =  3;\n", ["--range-start", "16", "--range-end", "31"],
-     ["local x   =  1;\n", "local z   =  3;\n"], ["local y = 2\n"]),
+     ["local x   =  1;\n", "local z   =  3;\n"], ["local y = 2\n"], "local x   =  1;\nlocal y = 2\nlocal z   =  3;\n"),
+    ("range-required-semi", "local a   =  1\nlocal b   =   2\n(f)()\n", ["--range-start", "15", "--range-end", "30"],
+     ["local a   =  1\n"], [], "local a   =  1\nlocal b = 2;\n(f)()\n"),
+    ("range-second-exact", "local x   =  1;\nlocal y   =  2;\n", ["--range-start", "16"], [], [], "local x   =  1;\nlocal y = 2\n"),
     ("range-open", "local x   =  1\nlocal y   =  2\n", [], [], ["local x = 1\n", "local y = 2\n"]),
     ("range-ignore-inside", "local x   =  1\n-- stylua: ignore\nlocal y   =  2;\n", ["--range-start", "0"], ["local y   =  2;\n"], ["local x = 1\n"]),
 ]
@@ -52,11 +55,13 @@ RANGE_BATTERY = [
 def run_battery(battery):
     binp = common.native_build("default")
     res = {}
-    for name, src, args, verbatim, formatted in battery:
+    for name, src, args, verbatim, formatted, *rest in battery:
         rc, out, err = common.run_stylua(binp, src, args)
         v = None
         if rc != 0:
             v = f"formatter failed rc={rc}: {err[:200]}"
+        elif rest and out != rest[0]:
+            v = f"output {out!r} differs from the expected {rest[0]!r}"
         else:
             for s_ in verbatim:
                 if s_ not in out:
@@ -72,7 +77,7 @@ def run_battery(battery):
 
 
 SEMI = {"stmt-semi", "stmt-semi-comment", "last-semi", "region-semi", "nested-semi", "call-semi", "range-second", "range-first", "range-last",
-        "range-both-semis", "range-ignore-inside"}
+        "range-both-semis", "range-ignore-inside", "range-required-semi", "range-second-exact"}
 TOGGLE = {"region", "no-leak", "end-directive", "second-directive-wins", "eof-comment", "plain"}
 
 
